@@ -572,7 +572,7 @@ def gen_history(rng):
 
 def gen_settings(rng):
     cfg = {}
-    pool = {"max_calc_step_size_feet": [0.25, 1.0, 2.0], "cZeroFindingAccuracy": [0.5, 1.0, 1e-4], "cMinimumVelocity": [0.0, 400.0, 1200.0],
+    pool = {"max_calc_step_size_feet": [0.25, 1.0, 2.0], "cZeroFindingAccuracy": [0.5, 1.0, 1e-4], "cMinimumVelocity": [0.0, 400.0, 1200.0, -100.0],
             "cMaximumDrop": [-5.0, -200.0, -30000.0], "cMaxIterations": [1, 2, 60], "cGravityConstant": [-9.0, -32.17405, -50.0, -16.0],
             "cMinimumAltitude": [-100.0, -10.0, -3000.0], "chart_resolution": [0.2, 1.0]}
     for k, vals in pool.items():
